@@ -19,8 +19,10 @@ LEVEL = "fault_enumeration"
 TECHNIQUE = "exhaustive single-bit fault enumeration per generated frame (Hypothesis-generated frames), bits classified by an independent layout reference"
 RULE = (
     "generated secured group frames (both algorithms, T_Data_Group / T_Data_Tag_Group, random key / addresses / sequence number / "
-    "flags, plain APDU 2..122 octets in the quick tier, 2..240 in thorough); per frame: all 8*len single-bit flips, all len-1 plain "
-    "truncations, all truncations with corrected length octet, 16+ wrong keys (each single-bit key flip of one octet, random, all-zero). "
+    "flags, plain APDU 2..122 octets in the quick tier, 2..240 in thorough; 4 of 10 frames carry a payload ending in 1..3 octets 0x00 "
+    "or all zero, biased to authentication only, plus a deterministic set of such frames); per frame: all 8*len single-bit flips, "
+    "all len-1 plain truncations, all truncations with corrected length octet, the secured APDU shortened by every k trailing octets "
+    "and extended by 1..16 octets 0x00 / a few non-zero tails (sequence number and MAC kept, length octet corrected), 16+ wrong keys (each single-bit key flip of one octet, random, all-zero). "
     "Every variant differs from the genuine frame, so every evaluation is non-trivial; distinct by construction per frame."
 )
 ASSUMPTIONS = [
@@ -122,6 +124,39 @@ def oracle(ctx, spec) -> None:
             elif got:
                 ctx.fail(f"C16:tampered-delivered:{kind}", inp(kind, arg), f"{kind} to {k} octets delivered {got[0]}; genuine frame {raw.hex()}")
     ctx.bulk(n_tr, n_tr, "truncation")
+    # --- secured APDU shortened / extended, sequence number and MAC kept, length octet corrected -----
+    # (a MAC that zero-pads without binding the APDU length cannot tell these from the genuine frame)
+    head, sapdu, mac = raw[: b + 16], raw[b + 16 : -4], raw[-4:]
+
+    def rebuild(new_sapdu: bytes) -> bytes | None:
+        npdu = 1 + 1 + 6 + len(new_sapdu) + 4
+        if npdu > 254:
+            return None
+        return head[: b + 6] + bytes([npdu]) + head[b + 7 :] + new_sapdu + mac
+
+    resized = [("sapdu-drop", k, rebuild(sapdu[: len(sapdu) - k])) for k in range(1, len(sapdu) + 1)]
+    resized += [("sapdu-append-zeros", k, rebuild(sapdu + bytes(k))) for k in range(1, 17)]
+    fill = bytes([(spec["seq"] & 0xFF) | 1])
+    resized += [("sapdu-append-nonzero", k, rebuild(sapdu + bytes(k - 1) + fill)) for k in (1, 2, 3, 16)]
+    resized += [("sapdu-append-nonzero", 100 + k, rebuild(sapdu + fill * k)) for k in (1, 2)]
+    n_rs = 0
+    for kind, arg, t in resized:
+        if t is None:
+            continue
+        n_rs += 1
+        got, exc, _ = receive(spec, t)
+        if exc is not None:
+            ctx.fail(f"C16:exception:{kind}:{exc_site(exc)}", inp(kind, arg), f"handle_raw_cemi raised {type(exc).__name__}: {exc} for {t.hex()}")
+        elif got:
+            ctx.fail(
+                f"C16:tampered-delivered:{kind}:{spec['alg']}",
+                inp(kind, arg),
+                f"secured APDU {kind} by {arg % 100} octet(s) (sequence number and MAC kept, length octet corrected) delivered {got[0]}; "
+                f"tampered {t.hex()} genuine {raw.hex()}",
+            )
+    ctx.bulk(n_rs, n_rs, "sapdu-resized")
+    if sapdu.endswith(b"\x00"):
+        ctx.classes["frame:secured-apdu-ends-in-00" if spec["alg"] == "auth" else "frame:plain-apdu-ends-in-00(enc)"] += 1
     # --- wrong keys -------------------------------------------------------
     key = bytes(spec["key"])
     pos = spec["seq"] % 16
@@ -149,7 +184,7 @@ def specs(max_plain_data: int):
     from hypothesis import strategies as st
 
     ns = len(S.service_instances())
-    return S.secure_specs(n_services=ns, max_plain_data=max_plain_data).map(lambda s: {**s, "gap": 1})
+    return S.secure_specs(n_services=ns, max_plain_data=max_plain_data, zero_tail_share=4).map(lambda s: {**s, "gap": 1})
 
 
 def _shard(ctx, n: int, max_plain: int) -> None:
@@ -165,6 +200,17 @@ def fixed_frames(ctx) -> None:
                              "payload": ("gvw", bytes(range(n))), "priority": 3, "repeat": False, "ack": False, "hop": 6, "code": 0x29, "gap": 1})  # fmt: skip
 
 
+def zero_tail_frames(ctx) -> None:
+    """Deterministic frames whose plain APDU ends in 0x00 octets / is all zero, both algorithms and TPCIs,
+    with the APDU ending inside and exactly at a CBC block boundary (block 0 | 2 length octets | SCF | APDU)."""
+    datas = [b"\x05\x00", b"\x07\x00\x00\x00", b"\x00", b"\x00\x00\x00", bytes(10), b"\x01" + bytes(10), bytes(range(1, 9)) + bytes(3), b"\x09" * 11 + bytes(2), bytes(27)]
+    for alg in ("auth", "enc"):
+        for tp in S.GROUP_TPCI:
+            for i, data in enumerate(datas):
+                oracle(ctx, {"key": bytes(range(32, 48)), "src": 0x1203, "dst": 0x0900 + i, "tpci": tp, "seq": 0x000100000000 + i, "alg": alg,
+                             "payload": ("gvw" if i % 2 else "gvr", data), "priority": 3, "repeat": False, "ack": False, "hop": 6, "code": 0x29, "gap": 1})  # fmt: skip
+
+
 def selftest(ctx) -> None:
     H.selftest(ctx)  # reference self-tests only
     lab = L.classify_secure_bits(bytes.fromhex("29003ce0400904001103f110002446cfef4ac085e7092ab062b44d"))
@@ -173,6 +219,7 @@ def selftest(ctx) -> None:
 
 def run(ctx) -> None:
     fixed_frames(ctx)
+    zero_tail_frames(ctx)
     parallel(ctx, _shard, [(ctx.n(25, 150), ctx.n(120, 238))] * ctx.n(8, 16))
 
 
